@@ -393,6 +393,11 @@ func evaluate(cfg config, i int) (it *item) {
 		}
 	}()
 	g0, retries, planted := genGrammar(r)
+	if sg := systematic(i); sg != nil {
+		// the first grammars of every run are not drawn: one literal / class per special code point, with and without
+		// the i flag, so that no change of the random stream can lose them
+		g0, retries, planted = sg, 0, 1
+	}
 	it.retries, it.planted = retries, planted
 	// the text of the grammar and the AST with the positions of that text
 	printed := pvpeg.PrintPos(g0, pvpeg.SubRand(cfg.seed, 1, i), plain)
